@@ -1324,7 +1324,7 @@ fn malformed_case(env: &Env, index: u64, r: &mut Rng) {
     let shown: Vec<String> = args.iter().map(|a| a.to_string_lossy().into_owned()).collect();
     let detail = |what: &str| {
         json!({"what": what, "class": class, "args": shown, "qasm": qasm, "circuit_qubits": n, "run": res.json(),
-               "expected": "exit code 1 or 2, a message on stderr, no panic"})
+               "expected": "a non-zero exit status, no panic"})
     };
     if res.timed_out {
         c.inconclusive("cli-timeout", detail("timeout"));
@@ -1335,15 +1335,18 @@ fn malformed_case(env: &Env, index: u64, r: &mut Rng) {
             None => c.violation(&format!("sim malformed|{class}|crash|killed-by-signal"), family, index, detail("malformed query crashed the CLI")),
             Some(0) if may_succeed => c.count(&format!("odd-but-valid-query-answered:{class}"), 1),
             Some(0) => c.violation(&format!("sim malformed|{class}|accepted|exit 0"), family, index, detail("malformed query was accepted (exit code 0)")),
-            Some(code @ (1 | 2)) => {
+            Some(code) => {
+                // "rejected with an error rather than a panic": any non-zero exit status is a
+                // rejection; which code it is and where the message goes are not part of the
+                // property (the current CLI uses 1 and 2 and writes to stderr - recorded as
+                // evidence only, so that a CLI that reports errors differently is not blamed)
                 c.count(&format!("malformed_exit_code:{code}"), 1);
                 if res.stderr.trim().is_empty() {
-                    c.violation(&format!("sim malformed|{class}|no-message-on-stderr|exit {code}"), family, index, detail("rejected without any message on stderr"));
+                    c.count("observation:malformed_rejected_without_message_on_stderr", 1);
                 } else {
                     c.count("malformed_rejected_with_message", 1);
                 }
             }
-            Some(code) => c.violation(&format!("sim malformed|{class}|unexpected-exit-code|exit {code}"), family, index, detail("exit code is neither 1 nor 2")),
         }
     }
     let _ = std::fs::remove_file(&file);
